@@ -23,6 +23,9 @@ func VerifC16Convert() {
 	for i := 0; i < K; i++ {
 		ks := string(rune('a' + i))
 		d := uint32(zz.U8("delta"+ks) & 3) // many events per tick
+		if zz.Param("bigdeltas") == 1 {
+			d = zz.U32("bigdelta" + ks) // files that run past tick 2^32
+		}
 		abs += int64(d)
 		var m []byte
 		switch zz.Choice("kind"+ks, 4) {
@@ -70,6 +73,15 @@ func VerifC16Convert() {
 	for c := 0; c < 16; c++ {
 		if len(chans[c]) > 0 {
 			want = append(want, chans[c])
+		}
+	}
+	// domain: in every destination track the gap between consecutive messages fits the uint32 delta field
+	// (otherwise no format-1 file can hold them at their ticks)
+	for _, lst := range want {
+		var prev int64
+		for _, e := range lst {
+			zz.Assume(e.tick-prev <= 0xFFFFFFFF)
+			prev = e.tick
 		}
 	}
 	zz.Assert(len(dst.Tracks) == len(want), "track-count")
